@@ -49,7 +49,48 @@ def rebase(wt):
     return rc2 == 0
 
 
+def sweep(ids):
+    """Re-judge stored seeds against /repo's CURRENT HEAD: fresh worktree, apply seeded/<id>/patch.diff,
+    confirm, run the checks recorded in meta.json, remove the worktree."""
+    import glob
+    base = "/tmp/mut"
+    os.makedirs(base, exist_ok=True)
+    ids = ids or sorted(os.path.basename(os.path.dirname(f)) for f in glob.glob(os.path.join(VERIF, "seeded", "*", "meta.json")))
+    for sid in ids:
+        d = os.path.join(VERIF, "seeded", sid)
+        meta = json.load(open(os.path.join(d, "meta.json")))
+        wt = os.path.join(base, "sweep-" + sid)
+        sh("git -C /repo worktree remove --force " + wt)
+        rc, o = sh("git -C /repo worktree add --detach %s HEAD" % wt)
+        rc, o = sh("git apply --3way %s" % os.path.join(d, "patch.diff"), cwd=wt)
+        if rc != 0:
+            rc, o = sh("git apply %s" % os.path.join(d, "patch.diff"), cwd=wt)
+        sh("git reset -q", cwd=wt)
+        if rc != 0:
+            print(sid, "PATCH DOES NOT APPLY to HEAD:", o[-200:])
+            meta["sweep"] = "patch does not apply to the current HEAD"
+            json.dump(meta, open(os.path.join(d, "meta.json"), "w"), indent=1, ensure_ascii=False)
+            sh("git -C /repo worktree remove --force " + wt)
+            continue
+        os.makedirs(os.path.join(wt, "_out"), exist_ok=True)
+        for n in os.listdir(d):
+            if n != "meta.json":
+                shutil.copy(os.path.join(d, n), os.path.join(wt, "_out", n))
+        note = meta.get("note")
+        rc, o = sh([sys.executable, os.path.abspath(__file__), "confirm", wt, sid] + meta["properties"],
+                   env={"CARGO_TARGET_DIR": os.path.join(base, "_sweep_target")}, timeout=20000)
+        print(o.strip().split("\n")[-1])
+        if note:
+            m2 = json.load(open(os.path.join(d, "meta.json")))
+            m2["note"] = note
+            json.dump(m2, open(os.path.join(d, "meta.json"), "w"), indent=1, ensure_ascii=False)
+        sh("git -C /repo worktree remove --force " + wt)
+    return 0
+
+
 def main():
+    if len(sys.argv) >= 2 and sys.argv[1] == "sweep":
+        return sweep(sys.argv[2:])
     if len(sys.argv) >= 3 and sys.argv[1] == "rebase":
         return 0 if all(rebase(os.path.abspath(w)) for w in sys.argv[2:]) else 1
     if len(sys.argv) < 5 or sys.argv[1] != "confirm":
@@ -62,7 +103,7 @@ def main():
     meta["steps"]["build_with_change"] = o.strip()[-300:]
     ok, failed, tail = tests_ok(wt)
     meta["steps"]["tests_with_change"] = {"pass": ok, "failed": failed}
-    rc1, o1 = sh(["sh", "_out/demo.sh", os.path.join(wt, "target/debug/cicada")], cwd=wt, timeout=600)
+    rc1, o1 = sh(["sh", "_out/demo.sh", os.path.join(os.environ.get("CARGO_TARGET_DIR", os.path.join(wt, "target")), "debug/cicada")], cwd=wt, timeout=600)
     meta["steps"]["demo_with_change"] = {"rc": rc1, "tail": o1[-400:]}
     # NOTE: `git stash` is shared by all worktrees of a repository -- never use it here.
     rc, cur = sh("git diff -- src Cargo.toml", cwd=wt)
@@ -72,7 +113,7 @@ def main():
     sh("git apply -R _seed_cur.diff", cwd=wt)
     try:
         sh("cargo build --offline 2>&1 | tail -1", cwd=wt)
-        rc0, o0 = sh(["sh", "_out/demo.sh", os.path.join(wt, "target/debug/cicada")], cwd=wt, timeout=600)
+        rc0, o0 = sh(["sh", "_out/demo.sh", os.path.join(os.environ.get("CARGO_TARGET_DIR", os.path.join(wt, "target")), "debug/cicada")], cwd=wt, timeout=600)
         meta["steps"]["demo_without_change"] = {"rc": rc0, "tail": o0[-400:]}
     finally:
         sh("git apply _seed_cur.diff", cwd=wt)
